@@ -1,34 +1,62 @@
 #!/usr/bin/env python3
-"""usage: tools_benign_scratch.py <dir with rfNN.diff> [Cxx ...]
+"""usage: tools_benign_scratch.py <dir with rfNN.diff> [<dir> ...] [-- Cxx ...]
 Every behaviour-preserving patch must leave all checks silent. Works on scratch copies of /repo (the working tree is
-copied once at the start, so /repo may be used for other things afterwards); prints one line per patch."""
-import os, sys, shutil, glob
-sys.path.insert(0, os.path.dirname(os.path.abspath(__file__)))
+copied once at the start, so /repo may be used for other things afterwards); prints one line per patch.
+Each (patch, property) is evaluated in its own subprocess (a process that evaluates many properties keeps every fact
+set it loaded and runs out of memory), eight at a time."""
+import os, sys, shutil, glob, json, subprocess
+from concurrent.futures import ThreadPoolExecutor
+HERE = os.path.dirname(os.path.abspath(__file__))
+sys.path.insert(0, HERE)
 os.environ.setdefault('TP_SCRATCH', '/var/tmp/tpv-benign-%d' % os.getpid())
-from tprules import selftest, engine
-d = os.path.abspath(sys.argv[1])
-props = sys.argv[2:] or ['C%02d' % i for i in range(1, 21)]
+from tprules import selftest
+args = sys.argv[1:]
+props = ['C%02d' % i for i in range(1, 21)]
+if '--' in args:
+    i = args.index('--')
+    args, props = args[:i], args[i + 1:]
+dirs = [os.path.abspath(a) for a in args]
 os.makedirs(selftest.SCRATCH, exist_ok=True)
 base = os.path.join(selftest.SCRATCH, 'base')
 selftest._copy_tree(base)
-basekeys = {p: engine.evaluate_keys(p, base) for p in props}
+
+CODE = ("import sys, json; sys.path.insert(0, %r); from tprules import engine; "
+        "print('KEYS ' + json.dumps(sorted(engine.evaluate_keys(sys.argv[1], sys.argv[2]))))" % HERE)
+
+
+def keys(prop, repo):
+    r = subprocess.run([sys.executable, '-c', CODE, prop, repo], stdout=subprocess.PIPE, stderr=subprocess.PIPE, text=True)
+    for line in r.stdout.splitlines():
+        if line.startswith('KEYS '):
+            return set(json.loads(line[5:]))
+    return {'CRASH %s: %s' % (prop, (r.stderr.strip().splitlines() or ['?'])[-1][:200])}
+
+
+def all_keys(repo):
+    # the first property generates the facts for this tree; the others then find them in the cache
+    out = {props[0]: keys(props[0], repo)}
+    with ThreadPoolExecutor(max_workers=8) as ex:
+        for p, k in zip(props[1:], ex.map(lambda p: keys(p, repo), props[1:])):
+            out[p] = k
+    return out
+
+
 try:
-    for f in sorted(glob.glob(os.path.join(d, 'rf*.diff'))):
-        n = os.path.basename(f)[:-5]
-        dst = os.path.join(selftest.SCRATCH, 'w')
-        shutil.rmtree(dst, ignore_errors=True)
-        shutil.copytree(base, dst, symlinks=True)
-        ok, msg = selftest._apply(dst, f)
-        if not ok:
-            print(n, 'NOAPPLY', msg, flush=True)
-            continue
-        alarms = []
-        for p in props:
-            try:
-                new = sorted(engine.evaluate_keys(p, dst) - basekeys[p])
-            except Exception as e:      # a crash of a rule is an alarm too
-                new = ['CRASH %s: %r' % (p, e)]
-            alarms += new
-        print(n, 'silent' if not alarms else 'ALARM ' + '; '.join(alarms[:8]), flush=True)
+    basekeys = all_keys(base)
+    for d in dirs:
+        for f in sorted(glob.glob(os.path.join(d, 'rf*.diff'))):
+            n = '%s/%s' % (os.path.basename(d), os.path.basename(f)[:-5])
+            dst = os.path.join(selftest.SCRATCH, 'w')
+            shutil.rmtree(dst, ignore_errors=True)
+            shutil.copytree(base, dst, symlinks=True)
+            ok, msg = selftest._apply(dst, f)
+            if not ok:
+                print(n, 'NOAPPLY', msg, flush=True)
+                continue
+            got = all_keys(dst)
+            alarms = []
+            for p in props:
+                alarms += sorted(got[p] - basekeys[p])
+            print(n, 'silent' if not alarms else 'ALARM ' + '; '.join(alarms[:8]), flush=True)
 finally:
     shutil.rmtree(selftest.SCRATCH, ignore_errors=True)
